@@ -1155,3 +1155,74 @@ func (w *World) modeIndependence() []*FuncResult {
 	}
 	return out
 }
+
+// printerDelegation (C06 / C09 / C03): the Print / Printf methods of the engine's two printers do
+// nothing but normalise their operands (enhanceArgs) and hand format and operands to the
+// formatting package that owns escaping (redact.Fprint[f] for the safe printer, fmt.Fprint[f] for
+// the plain one), writing into the state. Structural obligations <method>#delegates: straight-line
+// body, one enhanceArgs call, one call of the expected Fprint / Fprintf, nothing else - so that no
+// operand reaches the buffers by another route (unescaped, or formatted differently per mode).
+func (w *World) printerDelegation() []*FuncResult {
+	var out []*FuncResult
+	var fns []*ssa.Function
+	for fn := range w.AllFuncs {
+		if fn.Pkg == nil || !strings.HasSuffix(fn.Pkg.Pkg.Path(), "/errbase") || !w.InModule(fn.Pkg.Pkg) || fn.Signature.Recv() == nil || len(fn.Blocks) == 0 || fn.Synthetic != "" {
+			continue
+		}
+		if fn.Name() != "Print" && fn.Name() != "Printf" {
+			continue
+		}
+		rt := fn.Signature.Recv().Type().String()
+		if !strings.HasSuffix(rt, "errbase.printer") && !strings.HasSuffix(rt, "errbase.safePrinter") {
+			continue
+		}
+		fns = append(fns, fn)
+	}
+	sort.Slice(fns, func(i, j int) bool { return fns[i].String() < fns[j].String() })
+	for _, fn := range fns {
+		name := w.funcName(fn)
+		safe := strings.HasSuffix(fn.Signature.Recv().Type().String(), "safePrinter")
+		wantPkg := "fmt"
+		if safe {
+			wantPkg = "github.com/cockroachdb/redact"
+		}
+		wantFn := "F" + strings.ToLower(fn.Name()[:1]) + fn.Name()[1:] // Fprint / Fprintf
+		ok, why := true, ""
+		nEnh, nOut := 0, 0
+		if len(fn.Blocks) != 1 {
+			ok, why = false, "the body branches"
+		}
+		for _, b := range fn.Blocks {
+			for _, ins := range b.Instrs {
+				switch x := ins.(type) {
+				case *ssa.Call:
+					callee := x.Call.StaticCallee()
+					switch {
+					case callee != nil && callee.Name() == "enhanceArgs" && callee.Signature.Recv() != nil:
+						nEnh++
+					case callee != nil && callee.Pkg != nil && callee.Pkg.Pkg.Path() == wantPkg && callee.Name() == wantFn:
+						nOut++
+					default:
+						ok, why = false, "calls something other than enhanceArgs and "+wantPkg+"."+wantFn
+					}
+				case *ssa.Store, *ssa.MapUpdate, *ssa.If, *ssa.Go, *ssa.Defer:
+					ok, why = false, fmt.Sprintf("unexpected %T in a delegating printer method", ins)
+				}
+			}
+		}
+		if ok && (nEnh != 1 || nOut != 1) {
+			ok, why = false, fmt.Sprintf("%d enhanceArgs call(s) and %d %s call(s) instead of one each", nEnh, nOut, wantFn)
+		}
+		o := &Obligation{Name: name + "#delegates", Func: name, Kind: "post", Props: []string{"C06", "C09", "C03"},
+			Text: "the printer method normalises its operands and hands them to " + wantPkg + "." + wantFn + ", nothing else (structural)", Pos: w.Fset.Position(fn.Pos()).String()}
+		q := &Query{Goal: tTrue, Status: "trivial"}
+		if !ok {
+			q.Goal, q.Status = tFalse, ""
+			q.Output = why
+			o.Text += " -- " + why
+		}
+		o.Queries = []*Query{q}
+		out = append(out, &FuncResult{Name: name, Fn: fn, Obls: []*Obligation{o}})
+	}
+	return out
+}
